@@ -48,6 +48,7 @@ def shards(tier: str, seed: int) -> list:
     out = [{"kind": "bytes", "part": p} for p in ("single", "pairs", "perms", "full")]
     out += [{"kind": "fields", "part": p} for p in ("sky0", "sky1", "sky2", "ids", "chan", "misc")]
     out += [{"kind": "edits", "base": b} for b in ("full", "sparse")]
+    out += [{"kind": "cli"}]  # the same edits through the command-line wrapper (spp_header update), whose values arrive as text
     for s in out:
         s["tier"] = tier
     return out
@@ -58,7 +59,7 @@ def run_shard(shard: dict, ctx, res, only=None) -> None:
 
     warnings.filterwarnings("ignore", message=".*dubious year.*")
     wd = ctx.workdir("c05")
-    {"bytes": _bytes, "fields": _fields, "edits": _edits}[shard["kind"]](wd, shard, ctx, res, only)
+    {"bytes": _bytes, "fields": _fields, "edits": _edits, "cli": _cli}[shard["kind"]](wd, shard, ctx, res, only)
 
 
 # ------------------------------------------------------------------------------------------------
@@ -249,6 +250,74 @@ def _fields(wd, shard, ctx, res, only):
         res.outcome("fields/roundtrip")
         res.nontrivial += 1
         res.sample({"sub": "fields", "update": {k: (v if isinstance(v, (int, float, str)) else list(v)) for k, v in upd.items()}}, cap=1)
+
+
+# ------------------------------------------------------------------------------------------------
+# (c') edits through the command-line wrapper
+
+
+def _cli(wd, shard, ctx, res, only):
+    from click.testing import CliRunner
+
+    from sigpyproc.apps import spp_header
+
+    fields = fx.std_fields(4, 8)
+    fields = [*fields, ("source_name", "J0437-4715"), ("ibeam", 3), ("refdm", 12.5)]
+    head = fx.encode_header(fields)
+    data = bytes((i * 11 + 5) % 256 for i in range(64))
+    p = wd / "cli.fil"
+    texts = ["8", "8.5", "12.7", "2.999", "1e3", "4096.0", "-1", "abc", "", " 7", "0x10", "1_000", "nan", "inf", "3.25", "B0531+21", "x" * 40]
+    idx = -1
+    for key, _ in [*fields, ("not_a_key", 0)]:
+        for text in texts:
+            idx += 1
+            if only is not None and idx != only:
+                continue
+            res.evaluations += 1
+            case = {"shard": shard, "inner": idx}
+            p.write_bytes(head + data)
+            try:
+                r = CliRunner().invoke(spp_header.main, ["update", str(p), "-i", key, text])
+                refused = r.exit_code != 0
+            except Exception:  # noqa: BLE001
+                refused = True
+            after_bytes = p.read_bytes()
+            if after_bytes == head + data:
+                res.outcome("cli/unchanged")
+                continue
+            if refused:
+                res.violation({"site": "spp_header update", "symptom": "raised but the file changed"}, case, f"key={key!r} text={text!r}")
+                continue
+            try:
+                aft, aft_len = fx.parse_header_bytes(after_bytes)
+            except Exception as e:  # noqa: BLE001
+                res.violation({"site": "spp_header update", "symptom": "header malformed after a successful edit"}, case, f"key={key!r} text={text!r}: {e!r}")
+                continue
+            after = dict(aft)
+            if len(after_bytes) != len(head) + len(data) or aft_len != len(head) or after_bytes[len(head):] != data or [k for k, _ in aft] != [k for k, _ in fields] \
+                    or any(fx.enc_key(k, v) != fx.enc_key(k, after[k]) for k, v in fields if k != key):
+                res.violation({"site": "spp_header update", "symptom": "header length, data bytes or other keys changed"}, case, f"key={key!r} text={text!r}")
+                continue
+            # the key changed: it must now hold exactly what the text says, in the key's own type
+            t = fx.KEY_TYPES[key]
+            old = dict(fields)[key]
+            if t == "str":
+                ok = after[key] == (text[: len(old)] + " " * (len(old) - len(text)))
+            elif t == "d":
+                try:
+                    ok = struct.pack("<d", after[key]) == struct.pack("<d", float(text))
+                except ValueError:
+                    ok = False
+            else:
+                try:
+                    ok = float(after[key]) == float(text)  # '1e3' or '4096.0' may be taken as the integer they equal; '8.5' stored as 8 is not the requested edit
+                except ValueError:
+                    ok = False
+            if not ok:
+                res.violation({"site": "spp_header update", "symptom": "edited key does not hold the given value"}, case, f"key={key!r} text={text!r} after={after[key]!r}")
+                continue
+            res.outcome("cli/applied")
+            res.nontrivial += 1
 
 
 # ------------------------------------------------------------------------------------------------
